@@ -33,7 +33,7 @@ ASSUMPTIONS = [
 ]
 BOUNDS = {'quick': dict(nm_dim='1..2', powell_dim='1..2', de=dict(dim='1..2', strategies=10)),
           'thorough': dict(nm_dim='1..3', powell_dim='1..2', de=dict(dim='1..3', strategies=10))}
-BUDGET = {'quick': 400, 'thorough': 3600}
+BUDGET = {'quick': 1800, 'thorough': 3600}
 
 
 def programs_count(agg):
